@@ -414,4 +414,162 @@ def Blocked (rules : List BlockRule) (ip : Nat) : Prop :=
   ∃ pre r post, rules = pre ++ r :: post ∧ r.hit ip = true ∧ r.cmd = cmdClose ∧
     ∀ q ∈ pre, q.decisive ip = false
 
+/-! # Config loaders (accept / reject level) -/
+
+/-! ## mod_auth_basic readUserFile (ASCII content) -/
+
+def isBlank (c : UInt8) : Bool := c == 32 || c == 9
+/-- ASCII white space of `strings.TrimSpace` -/
+def isSpaceB (c : UInt8) : Bool := c == 32 || (9 ≤ c && c ≤ 13)
+
+def trimBy (p : UInt8 → Bool) (l : Bytes) : Bytes := ((l.dropWhile p).reverse.dropWhile p).reverse
+
+def dropCR (l : Bytes) : Bytes := if l.getLast? = some 13 then l.dropLast else l
+
+/-- `bufio.Scanner` with `ScanLines`: split at LF, no token for the empty rest after a final LF, one trailing CR dropped -/
+def scanLines (bs : Bytes) : List Bytes :=
+  let parts := splitOn (fun c => c == 10) bs
+  let parts := if parts.getLast? = some [] then parts.dropLast else parts
+  parts.map dropCR
+
+/-- `strings.Trim(line, " \t")` -/
+def userLineBody (raw : Bytes) : Bytes := trimBy isBlank raw
+
+/-- lines that are not skipped: non-empty after trimming and without '#' ANYWHERE -/
+def userLineRelevant (raw : Bytes) : Bool :=
+  !(userLineBody raw).isEmpty && !(userLineBody raw).contains 35
+
+def userLineParts (raw : Bytes) : List Bytes := splitOn (fun c => c == 58) (userLineBody raw)
+
+def userLineEntry (raw : Bytes) : Bytes × Bytes :=
+  (trimBy isSpaceB ((userLineParts raw).getD 0 []), trimBy isSpaceB ((userLineParts raw).getD 1 []))
+
+/-- the loop of readUserFile: `none` = "Format error" -/
+def loadUserLines : List Bytes → Option (List (Bytes × Bytes))
+  | [] => some []
+  | raw :: rest =>
+    if !userLineRelevant raw then loadUserLines rest
+    else if (userLineParts raw).length != 2 && (userLineParts raw).length != 3 then none
+    else match loadUserLines rest with
+      | none => none
+      | some ents => some (userLineEntry raw :: ents)
+
+/-- readUserFile: entries in file order; the map is `lookupLast` over them -/
+def readUserFile (content : Bytes) : Option (List (Bytes × Bytes)) := loadUserLines (scanLines content)
+
+/-! ## mod_secure_link NewData / NewRule (on the decoded DataFile) -/
+
+structure SlNodeFile where
+  ty : Bytes
+  param : Bytes
+
+structure SlRuleFile where
+  cond : Option Bool                 -- none: Cond nil;  some b: condition.Build succeeded?
+  ck : Option Bytes
+  ek : Option Bytes
+  nodes : Option (List SlNodeFile)   -- none: ExpressionNodes nil
+
+def asciiLower (b : Bytes) : Bytes := b.map lowerB
+
+def tyLabel : Bytes := [108, 97, 98, 101, 108]
+def tyQuery : Bytes := [113, 117, 101, 114, 121]
+def tyHeader : Bytes := [104, 101, 97, 100, 101, 114]
+def tyHost : Bytes := [104, 111, 115, 116]
+def tyUri : Bytes := [117, 114, 105]
+def tyRemoteAddr : Bytes := [114, 101, 109, 111, 116, 101, 95, 97, 100, 100, 114]
+def md5Key : Bytes := [109, 100, 53]
+
+/-- NewNode: `switch strings.ToLower(enf.Type)` -/
+def newNode (nf : SlNodeFile) : Option SlNode :=
+  let t := asciiLower nf.ty
+  if t = tyLabel then some (.label nf.param)
+  else if t = tyQuery then some (.query nf.param)
+  else if t = tyHeader then some (.header nf.param)
+  else if t = tyHost then some .host
+  else if t = tyUri then some .uri
+  else if t = tyRemoteAddr then some .remoteAddr
+  else none
+
+def newNodes : List SlNodeFile → Option (List SlNode)
+  | [] => some []
+  | nf :: rest =>
+    match newNode nf with
+    | none => none
+    | some n => match newNodes rest with
+      | none => none
+      | some ns => some (n :: ns)
+
+/-- NewRule -/
+def newRule (rf : SlRuleFile) : Option SlRule :=
+  match rf.cond with
+  | none => none
+  | some false => none
+  | some true =>
+    if rf.ck = some [] then none
+    else match rf.nodes with
+      | none => none
+      | some nfs =>
+        match newNodes nfs with
+        | none => none
+        | some ns => some { ck := rf.ck.getD md5Key, ek := rf.ek.getD [], nodes := ns }
+
+def newRules : List (Option SlRuleFile) → Option (List SlRule)
+  | [] => some []
+  | none :: _ => none
+  | some rf :: rest =>
+    match newRule rf with
+    | none => none
+    | some r => match newRules rest with
+      | none => none
+      | some rs => some (r :: rs)
+
+/-- NewData for one product: Version and Config must be present -/
+def newData (hasVersion : Bool) (config : Option (List (Option SlRuleFile))) : Option (List SlRule) :=
+  if !hasVersion then none
+  else match config with
+    | none => none
+    | some rfs => newRules rfs
+
+/-- specification of an acceptable rule entry (docs: Cond, ExpressionNodes with a supported node type) -/
+def nodeTypeOK (ty : Bytes) : Bool :=
+  let t := asciiLower ty
+  t == tyLabel || t == tyQuery || t == tyHeader || t == tyHost || t == tyUri || t == tyRemoteAddr
+
+/-! ## mod_block ProductRuleConfLoad (on the decoded file) -/
+
+structure BlockRuleFile where
+  cond : Option Bool                       -- none: nil; some b: condition.Build ok?
+  name : Option Bytes
+  action : Option (Option Bytes × Option Nat)  -- Cmd, number of Params (none = nil)
+
+def blockRuleFileOK (r : BlockRuleFile) : Bool :=
+  r.cond == some true && r.name.isSome &&
+  match r.action with
+  | some (some cmd, some n) => (cmd == cmdClose || cmd == cmdAllow) && n == 0
+  | _ => false
+
+def namesDistinct : List (Option Bytes) → Bool
+  | [] => true
+  | n :: rest => !rest.contains n && namesDistinct rest
+
+/-- number of rules loaded for the product, `none` = load error -/
+def blockConfLoad (hasVersion : Bool) (rules : Option (List BlockRuleFile)) : Option Nat :=
+  if !hasVersion then none
+  else match rules with
+    | none => none
+    | some rs => if rs.all blockRuleFileOK && namesDistinct (rs.map (·.name)) then some rs.length else none
+
+/-! ## realm quoting -/
+
+/-- RFC 7235 quoted-string content: `"` and `\` need a backslash -/
+def quoteEsc : Bytes → Bytes
+  | [] => []
+  | c :: rest => if c = 34 ∨ c = 92 then 92 :: c :: quoteEsc rest else c :: quoteEsc rest
+
+def challengeSpec (scheme : String) (realm : Bytes) : Bytes :=
+  strBytes scheme ++ strBytes " realm=\"" ++ quoteEsc realm ++ strBytes "\""
+
+/-- bytes that cannot appear raw in a quoted-string -/
+def realmClean (realm : Bytes) : Bool := realm.all fun c => c != 34 && c != 92
+
 end BfeVerif.C51
